@@ -26,7 +26,7 @@ def _content(i: int, salt: int) -> bytes:
     return b'o%d-%d' % (i, salt)                              # tiny, distinct
 
 
-def run_case(case_id: int, prop: str = 'C16'):
+def run_case(case_id: int, prop: str = ''):
     dos = common.import_repo()
     rng = common.rng_for('bigstore', case_id)
     res = {'case_id': case_id, 'failures': [], 'stats': {}, 'steps': 0}
@@ -47,6 +47,11 @@ def run_case(case_id: int, prop: str = 'C16'):
         handles.append(c)
         salt = rng.randrange(10 ** 6)
         contents = [_content(i, salt) for i in range(n)]
+        # the empty object (stored length 0: it shares its offset with its successor) at a page boundary of the index in some cases
+        boundary = rng.choice([None, 999, 1000, 1999])
+        if boundary is not None and boundary < n - 2:
+            contents[0], contents[boundary] = contents[boundary], contents[0]
+        res['stats']['empty_at'] = -1 if boundary is None else boundary
         digest = lambda b: hashlib.new(hash_type, b).hexdigest()  # noqa: E731
         keys = [digest(b) for b in contents]
         table = {}
@@ -127,10 +132,57 @@ def run_case(case_id: int, prop: str = 'C16'):
                 fail(['C03'], 'raw', f'{label}: {probs[0]}')
             return raw
 
+        def damage_check(label, always=False):
+            """one bit flipped in a packed object (on a copy), preferring the neighbours of zero-length objects and of the 1000-row
+            pages of the index: validate() must not come back clean"""
+            if not (always or prop == 'C12' or rng.random() < 0.5):
+                return
+            import shutil  # pylint: disable=import-outside-toplevel
+
+            raw = Raw(folder)
+            by_pack = {}
+            for r in raw.rows:
+                by_pack.setdefault(r[2], []).append(r)
+            cands = []
+            for pk_, rs in by_pack.items():
+                rs.sort(key=lambda r: (r[3], r[0]))
+                for i_, r in enumerate(rs):
+                    if r[4] > 0 and (i_ % 1000 in (0, 1, 999) or (i_ > 0 and rs[i_ - 1][4] == 0)):
+                        cands.append(r)
+            victims = rng.sample(cands, min(len(cands), 6)) if cands else []
+            for v in victims:
+                dmg = os.path.join(scratch, 'dmg')
+                shutil.rmtree(dmg, ignore_errors=True)
+                shutil.copytree(folder, dmg)
+                path = os.path.join(dmg, 'packs', str(v[2]))
+                with open(path, 'r+b') as fh:
+                    fh.seek(v[3] + v[4] // 2)
+                    b0 = fh.read(1)
+                    fh.seek(v[3] + v[4] // 2)
+                    fh.write(bytes([b0[0] ^ 0x10]))
+                cd = dos.Container(dmg)
+                try:
+                    try:
+                        clean = cd.validate().is_valid()
+                    except Exception:  # pylint: disable=broad-except
+                        clean = False
+                finally:
+                    cd.close()
+                shutil.rmtree(dmg, ignore_errors=True)
+                if clean:
+                    fail(['C12'], 'damage-clean', f'{label}: a bit flipped inside the stored bytes of the object at offset {v[3]} of pack {v[2]} '
+                                                  f'({len(by_pack[v[2]])} objects in the pack): validate() returns a clean report')
+                    break
+            res['stats']['damage_checks'] = res['stats'].get('damage_checks', 0) + len(victims)
+
         # 1. fill: directly to packs in a few calls, a part as loose objects packed afterwards
         cut = sorted(rng.sample(range(1, n), 2))
+        if boundary is not None and n > 2300:
+            cut = sorted([rng.randrange(2100, n - 50), rng.randrange(2100, n - 50)])
+        first_plain = boundary is not None
         for lo, hi in ((0, cut[0]), (cut[0], cut[1])):
-            got = c.add_objects_to_pack(contents[lo:hi], compress=rng.random() < 0.5, no_holes=rng.random() < 0.3, no_holes_read_twice=rng.random() < 0.5)
+            got = c.add_objects_to_pack(contents[lo:hi], compress=(rng.random() < 0.5) and not (first_plain and lo == 0), no_holes=rng.random() < 0.3,
+                                        no_holes_read_twice=rng.random() < 0.5)
             if got != keys[lo:hi]:
                 fail(['C01'], 'keys', 'add_objects_to_pack returned wrong keys')
         stale = dos.Container(folder)
@@ -149,10 +201,25 @@ def run_case(case_id: int, prop: str = 'C16'):
         for i in range(n):
             table[keys[i]] = contents[i]
         check_views('after filling', c)
-        c.pack_all_loose(compress=rng.random() < 0.5, clean_loose_per_pack=rng.random() < 0.5)
+        per_pack_clean = rng.random() < 0.5
+        c.pack_all_loose(compress=rng.random() < 0.5, clean_loose_per_pack=per_pack_clean)
+        if not per_pack_clean and rng.random() < 0.6:
+            # packing again while the (now packed) loose files are still there, plus a few new loose objects: every one of the
+            # old ones must be recognised as packed already, whatever IN-batch it falls into
+            extra = [b'late-%d-%d' % (i, salt) for i in range(3)]
+            for b in extra:
+                table[c.add_object(b)] = b
+            try:
+                c.pack_all_loose(compress=rng.random() < 0.5)
+            except Exception as exc:  # pylint: disable=broad-except
+                fail(['C16', 'C09', 'C02'], 'repack-loose-raised', f'pack_all_loose over {len(loose_part) + 3} loose objects of which {len(loose_part)} are packed already raised '
+                                                                   f'{type(exc).__name__}: {str(exc)[:120]}')
+            res['stats']['second_pack'] = 1
         c.clean_storage()
         check_views('after pack_all_loose + clean_storage, through a handle opened before', stale, probe_missing=False)
         raw = check_disk('after filling and packing')
+        if boundary is not None:
+            damage_check('after filling', always=(prop == 'C12'))
         packed_keys = {r[1] for r in raw.rows}
         left = [k for k in raw.loose_bytes if k in packed_keys]
         if left:
@@ -219,6 +286,7 @@ def run_case(case_id: int, prop: str = 'C16'):
         val = c.validate()
         if any(val.values() if isinstance(val, dict) else [not val.is_valid()]):
             fail(['C12'], 'validate', 'validate() reports problems on a container that only went through the API')
+        damage_check('at the end')
     except common.Infra as exc:
         res['infra'] = str(exc)
     except Exception as exc:  # pylint: disable=broad-except
@@ -243,7 +311,7 @@ def failures_for(prop: str, n: int, rep=None):
 
     ctx = mp.get_context('fork')
     with ctx.Pool(processes=min(8, os.cpu_count() or 4, max(1, n))) as pool:
-        results = pool.map(run_case, range(n), chunksize=1)
+        results = pool.starmap(run_case, [(i, prop) for i in range(n)], chunksize=1)
     out = []
     for r in results:
         if rep is not None and r.get('infra'):
